@@ -29,6 +29,7 @@ THEOREMS = [
     "Ural.Props.C12.accessors_string_partial",
     "Ural.Props.C12.fullRoundtripString_false",
     "Ural.Props.C12.splitLaw_of_class",
+    "Ural.Props.C12.splitLaw_bracketed",
     "Ural.Props.C12.relru_fixed_class",
     "Ural.Props.C12.accessors_roundtrip",
     "Ural.Props.C12.stems_wellformed_of_split",
@@ -82,22 +83,26 @@ TRUSTED = [
     "split_suffix (public-suffix trie, property C08) is an abstract parameter of the model; the driver uses the answer of the real split_suffix shipped with each case",
 ]
 ASSUMPTIONS = [
-    "C08 clause used as hypothesis (SplitRejoins / SplitRejoinsUrl): when split_suffix(url) is not None its two parts re-join to the lower-cased urlsplit(url).hostname; checked on every in-grammar case of this run (it fails exactly for hosts with a trailing dot, which are outside the suffix-aware reading). The string-level class additionally reads off the real split_suffix answer 'None on a bracketed literal' (true for pure IPv6 by is_special_host — proved —, for embedded IPv4 because no public suffix is a number; false for zone ids / IPvFuture texts ending with a public suffix: KF-C12-1)",
+    "C08 clause used as hypothesis (SplitRejoins / SplitRejoinsUrl): when split_suffix(url) is not None its two parts re-join to the lower-cased urlsplit(url).hostname; checked on every in-grammar case of this run (it fails exactly for hosts with a trailing dot, which are outside the suffix-aware reading). Nothing is assumed about split_suffix on a bracketed IP literal: stems.py does not consult it there (fix of the former KF-C12-1), and the theorems do not either (hostSplit, splitLaw_bracketed)",
     "reading: the suffix-aware clause is demanded for hosts without empty label (DESIGN D35) and without '%'; userinfo/host without raw '@', port without ':' (the grammar); empty and absent user/password identified",
 ]
 UNPROVED = (
     "The parser hypothesis is discharged: roundtrip_string_partial / accessors_string_partial / serialization_string are "
-    "about URL STRINGS with the modelled parser in the loop (urlsplit(urlunsplit t) = t is now the theorem "
+    "about URL STRINGS with the modelled parser in the loop (urlsplit(urlunsplit t) = t is the theorem "
     "UrlRoundTrip.urlsplit_urlunsplit20 applied to the components lru_to_url prints). What remains: "
     "(1) the Lean parser is compared with CPython on every case, not proved equal to it; "
     "(2) the round trip is proved on the class inClass = {u : the parser accepts ensure_protocol(u); no '|'; netloc in the "
-    "grammar wfNetloc; a host; no raw '[' ']' in the userinfo; suffix-aware: no '%' in a plain host, split_suffix is None "
-    "on a bracketed literal}. Outside it: no host / netloc outside the grammar / bracketed literal with a suffix really fail "
-    "(fullRoundtripString_false, examples, KF-C12-1); a malformed authority raises ValueError; for a raw bracket in the "
-    "userinfo (needs the bracket check of urlsplit to survive the removal of an empty password) and '%' in a plain "
-    "suffix-aware host (needs split_suffix(h) = split_suffix(lower h), not part of C08's clause) no failing input is "
-    "known: those two regions are covered by correspondence + oracle only; "
-    "(3) embedded-IPv4 literals are covered at component level (splitLaw_of_class, relru_fixed_class, roundtrip_parts) "
+    "grammar wfNetloc; a host; no raw '[' ']' in the userinfo; suffix-aware: no '%' in a plain host}. The class no longer "
+    "consults split_suffix: EVERY bracketed literal is inside it in both modes (pure IPv6, zone id, IPvFuture, whatever "
+    "public suffix its text ends with — the former KF-C12-1 witnesses now round-trip, Lean examples). Outside it: no host / "
+    "netloc outside the grammar really fail (fullRoundtripString_false, examples); a malformed authority raises ValueError; "
+    "'%' in a plain suffix-aware host: the accessor form really fails (example: http://a%B.com/ comes back as "
+    "http://a%b.com/, CPython's .hostname does not lower-case after '%'), the component form (expectedParts) has no known "
+    "failing input but its fixed-point part would need split_suffix(h) = split_suffix(lower h) (C08.split_case_insensitive, "
+    "not part of the clause assumed here); a raw bracket in the userinfo: no failing input known, the proof would need the "
+    "bracket check of urlsplit to survive the removal of an empty password — these two regions are covered by "
+    "correspondence + oracle only; "
+    "(3) embedded-IPv4 literals are covered at component level (splitRejoins_of_c08, relru_fixed, roundtrip_parts) "
     "but not at string level: the parser model rejects them (stated restriction of Py/UrlSplit.lean)"
 )
 
@@ -125,10 +130,11 @@ CORPUS = [
     # D34 (fixed by 915ddc4): bracketed IPv6 hosts
     "http://[2001:db8::1]:8080/x", "http://[::1]/", "http://u:p@[::1]:80/", "http://[2001:db8::1]/x",
     "http://[::ffff:1.2.3.4]:8/a", "http://[fe80::1%25eth0]:22/", "http://[FE80::A]/", "http://[::1]:/",
-    # KF-C12-1: bracketed literal whose zone id / IPvFuture text ends with a public suffix (suffix-aware mode
-    # splits it into domain labels); and the same shapes without a suffix (fine)
+    # FX-C12-BRACKETSUFFIX (formerly KF-C12-1): bracketed literal whose zone id / IPvFuture text ends with a public
+    # suffix (suffix-aware mode used to split it into domain labels); and the same shapes without a suffix
     "http://[::1%a.co.uk]/x", "http://[v1.a.com]/", "http://[FE80::1%Eth0.com]:80/", "http://[fe80::1%eth0]/",
     "http://[v1.x]/p", "http://u:p@[fe80::1%25eth0]:22/a?b#c", "http://[v1.fe80::a+en1]/",
+    "http://U:P@[FE80::1%Eth0.CO.UK]:8080/a//b?q#f", "//[v1.B.city.kawasaki.jp]", "[::1%x.www.ck]:80/p",
     # string-level class boundary: bracket in the userinfo, no host, tab / CR / LF inside, leading blanks
     "http://u[@a.com/", "http://[u]@a.com/", "http://[::1]@a.com/", "http://:[::1]@a.com/p", "http:///x", "http://@/x",
     "http://a.com/a\tb", "ht\ttp://a.com", "  http://a.com/x", "\x00http://a.com", "http://a\n.com/", "HTTP://A.com:80",
@@ -321,16 +327,12 @@ def wf_parts(t):
     return wf_netloc(t[1]) and (t[2] == "" or t[2].startswith("/"))
 
 
-HEX = set("0123456789abcdefABCDEF")
-
-
 def wf_host_sa(netloc):
     sp = spec_hostport(hostport_of(netloc))
     host = sp[0] if sp else ""
     if host.startswith("["):
-        # mirrors the Lean text: r.dropLast of what follows '['
-        inner = host[1:][:-1]
-        return ":" in inner and all(c in HEX or c == ":" for c in inner)
+        # a bracketed literal is never suffix-processed: nothing is demanded
+        return True
     return "%" not in host
 
 
@@ -343,7 +345,8 @@ def expected_tuple(t, sa, split):
     scheme, netloc, path, query, fragment = t
     user, pw = userinfo_of(netloc)
     host, port = spec_hostport(hostport_of(netloc))
-    if sa and split is not None:
+    if sa and split is not None and not host.startswith("["):
+        # a bracketed literal is never suffix-processed, whatever split_suffix finds in its text
         host = ascii_lower(host)
     auth = user + (":" + pw if pw else "")
     n = (auth + "@" if auth else "") + host + (":" + port if port is not None else "")
@@ -434,12 +437,8 @@ def class_reason(A, sa, split):
     auth = n[:i] if i >= 0 else ""
     if "[" in auth or "]" in auth:
         return "bracket-in-userinfo"
-    if sa:
-        if host.startswith("["):
-            if split is not None:
-                return "bracketed-literal-with-suffix(KF-C12-1)"
-        elif "%" in host:
-            return "percent-in-host"
+    if sa and "%" in host and not host.startswith("["):
+        return "percent-in-host"
     return None
 
 
@@ -734,21 +733,6 @@ def oracle_url(url, sa):
     return None
 
 
-def kf_bracketed_literal_suffix(case, failure):
-    """KF-C12-1: suffix_aware=True, the host of u is a bracketed IP literal and split_suffix finds a
-    public suffix at the end of its text (zone id `[::1%a.co.uk]`, IPvFuture `[v1.a.com]`): stems.py
-    then emits the literal as domain labels and lru_to_url gives a URL without brackets"""
-    if case.get("k") != "url" or not failure.startswith("suffix_aware=True"):
-        return False
-    pr = cparse(case["url"])
-    if pr is None:
-        return False
-    A, split = pr
-    if split is None or not wf_netloc(A[1]):
-        return False
-    return spec_hostport(hostport_of(A[1]))[0].startswith("[")
-
-
 def nontrivial(case):
     if case["k"] != "url" or "|" in case["url"]:
         return None
@@ -802,6 +786,9 @@ def classify(case):
         labs.append("port=" + ("absent" if p is None else "empty" if p == "" else "given"))
         if h != h.lower():
             labs.append("host-upper")
+        if h.startswith("[") and split is not None and True in case["sa"]:
+            # the class the fix FX-C12-BRACKETSUFFIX is about: split_suffix finds a suffix in the literal's text
+            labs.append("bracketed-literal-with-public-suffix-text")
     if True in case["sa"]:
         labs.append("split=" + ("none" if split is None else "suffix-only" if split[0] == "" else "%d-label-suffix" % (split[1].count(".") + 1)))
     if "//" in A[2] or A[2].endswith("/"):
